@@ -40,7 +40,10 @@ type ContainerPlan struct {
 	Cast     []Principal `json:"cast"`
 	Tokens   []TokSpec   `json:"tokens"`
 	AddOrder []int       `json:"add_order,omitempty"`
-	Steps    []CStep     `json:"steps"`
+	// Reuse: one Writer serves every write of the run (filled in two halves with a write in
+	// between, some tokens added twice); otherwise each write builds its own
+	Reuse bool    `json:"reuse_writer,omitempty"`
+	Steps []CStep `json:"steps"`
 }
 
 func (p *ContainerPlan) Len() int { return len(p.Steps) }
@@ -132,6 +135,7 @@ type containerExec struct {
 	sealed [][]byte
 	ledger map[string]string // cid hex -> content
 	header []byte            // the CAR header the writer emits
+	wr     container.Writer  // the run's one Writer (Reuse)
 }
 
 func execContainer(t *testing.T, pl Plan, seed uint64, o *Outcome) {
@@ -181,8 +185,31 @@ func execContainer(t *testing.T, pl Plan, seed uint64, o *Outcome) {
 func (e *containerExec) write(format string, stream bool) ([]byte, error) {
 	w := container.NewWriter()
 	order := applyPerm(e.sealed, e.p.AddOrder)
-	for _, b := range order {
-		w.AddSealed(mustCID(harnessCID(b)), b)
+	if e.p.Reuse {
+		if e.wr == nil {
+			// first use: half of the tokens, a write of every format, then the rest and a few again
+			e.wr = container.NewWriter()
+			for _, b := range order[:len(order)/2] {
+				e.wr.AddSealed(mustCID(harnessCID(b)), b)
+			}
+			_, _ = e.wr.ToCbor()
+			_, _ = e.wr.ToCar()
+			_, _ = e.wr.ToCborBase64()
+			_, _ = e.wr.ToCarBase64()
+			for _, b := range order[len(order)/2:] {
+				e.wr.AddSealed(mustCID(harnessCID(b)), b)
+			}
+			for i, b := range order {
+				if i%3 == 0 {
+					e.wr.AddSealed(mustCID(harnessCID(b)), b)
+				}
+			}
+		}
+		w = e.wr
+	} else {
+		for _, b := range order {
+			w.AddSealed(mustCID(harnessCID(b)), b)
+		}
 	}
 	var sink io.Writer
 	var sw *simWriter
@@ -912,6 +939,7 @@ func genContainer(r *Rand, g GenCfg) Plan {
 		}
 	}
 	p.AddOrder = r.Perm(n)
+	p.Reuse = r.Chance(0.5)
 	mkChunks := func() []int {
 		var ch []int
 		if r.Chance(0.6) {
